@@ -532,7 +532,7 @@ func c20RunScenario(c *core.Ctx, sc c20Scenario, bound int, maxExec int64) core.
 	for bound > 1 && est(bound) > float64(maxExec) {
 		bound--
 	}
-	st, err := sched.Explore(mk, bound, 4*maxExec, 20*time.Second, check)
+	st, err := sched.Explore(mk, bound, 4*maxExec, 20*time.Second, c.Deadline, check)
 	if err != nil {
 		return core.Fail("HARNESS: %v", err)
 	}
@@ -550,7 +550,11 @@ func c20RunScenario(c *core.Ctx, sc c20Scenario, bound int, maxExec int64) core.
 	}
 	if st.Truncated {
 		c.P.Capped = true
-		c.P.CapNote = fmt.Sprintf("scenario %s: execution cap %d hit at preemption bound %d (bounds below it complete)", sc.name(bs), maxExec, st.BoundDone+1)
+		why := fmt.Sprintf("execution cap %d", 4*maxExec)
+		if st.TimedOut {
+			why = "time cap of this run"
+		}
+		c.P.CapNote = fmt.Sprintf("scenario %s: %s hit at preemption bound %d (bounds below it complete)", sc.name(bs), why, st.BoundDone+1)
 	}
 	c.Outcome(fmt.Sprintf("%s: bound %d, %d schedules, %d points, %d distinct outcome(s)", sc.name(bs), st.BoundDone, total, st.MaxPoints, len(outcomes)))
 	c.Count(fmt.Sprintf("scenarios_completed_at_preemption_bound_%d", st.BoundDone), 1)
@@ -580,11 +584,14 @@ func checkC20(c *core.Ctx) {
 	var maxExec int64 = 25000
 	if c.Thorough() {
 		bound = 3
-		maxExec = 1000000
+		maxExec = 300000
 	}
 	c.CaseTimeout = 30 * time.Minute
 	bs := c20Bodies()
 	for _, sc := range c20Scenarios(c.Thorough()) {
+		if c.Expired() {
+			break
+		}
 		sc := sc
 		b := bound
 		c.Case(fmt.Sprintf("sched/%s", sc.name(bs)), true, func() core.Verdict {
